@@ -27,9 +27,9 @@ import (
 // scenario is re-run and only reported if it fails every time.
 
 type ProcScenario struct {
-	Jobs          []ProcJob `json:"jobs"`
-	KillTimeoutMs int       `json:"kill_timeout_ms"`
-	ForcedShutdown bool     `json:"forced_shutdown,omitempty"` // end the marked jobs by a forced shutdown instead of CancelJob
+	Jobs           []ProcJob `json:"jobs"`
+	KillTimeoutMs  int       `json:"kill_timeout_ms"`
+	ForcedShutdown bool      `json:"forced_shutdown,omitempty"` // end the marked jobs by a forced shutdown instead of CancelJob
 }
 
 type ProcJob struct {
@@ -112,9 +112,41 @@ func generateProc(seed uint64) *Scenario {
 }
 
 type markedProc struct {
-	Pid   int
-	State string
-	Cmd   string
+	Pid    int
+	State  string
+	Cmd    string
+	SigInt string // "ignores-SIGINT" if SIGINT is in the process's SigIgn mask (explicitly, or as a background command of a non-interactive shell), else "handles-SIGINT"
+}
+
+// ignoresSIGINT reads the SigIgn mask of /proc/<pid>/status.
+func ignoresSIGINT(pid string) string {
+	st, err := os.ReadFile("/proc/" + pid + "/status")
+	if err != nil {
+		return "handles-SIGINT"
+	}
+	for _, l := range strings.Split(string(st), "\n") {
+		if strings.HasPrefix(l, "SigIgn:") {
+			var mask uint64
+			fmt.Sscanf(strings.TrimSpace(strings.TrimPrefix(l, "SigIgn:")), "%x", &mask)
+			if mask&(1<<(uint(syscall.SIGINT)-1)) != 0 {
+				return "ignores-SIGINT"
+			}
+		}
+	}
+	return "handles-SIGINT"
+}
+
+func allIgnoreSIGINT(ps []markedProc) string {
+	n := 0
+	for _, p := range ps {
+		if p.SigInt == "ignores-SIGINT" {
+			n++
+		}
+	}
+	if n == len(ps) {
+		return "all of them ignore SIGINT"
+	}
+	return fmt.Sprintf("%d of them do not ignore SIGINT", len(ps)-n)
 }
 
 // markedProcs lists the live (non-zombie) processes whose environment carries the mark.
@@ -142,7 +174,7 @@ func markedProcs(mark string) []markedProc {
 		cmd, _ := os.ReadFile("/proc/" + n + "/cmdline")
 		var pid int
 		fmt.Sscan(n, &pid)
-		res = append(res, markedProc{pid, state, strings.TrimSpace(strings.ReplaceAll(string(cmd), "\x00", " "))})
+		res = append(res, markedProc{pid, state, strings.TrimSpace(strings.ReplaceAll(string(cmd), "\x00", " ")), ignoresSIGINT(n)})
 	}
 	return res
 }
@@ -275,7 +307,7 @@ func (r *procRun) once(attempt int) []Violation {
 			if late := markedProcs(marks[i]); len(late) > 0 {
 				violate("r1b", "job %d (shape: %s) was reported finished %v after its cancel, and %d of its processes are still alive %v after the cancel, well past the kill timeout of %v: %v (script %q)", i, j.Shape, took.Round(time.Millisecond), len(late), time.Since(cancelAt[i]).Round(time.Millisecond), killTimeout, late, j.Script)
 			} else {
-				violate("r1a", "job %d (shape: %s) was reported finished %v after its cancel, but %d of its processes were still alive 250ms after that report (they were gone once the kill timeout of %v had passed): %v (script %q)", i, j.Shape, took.Round(time.Millisecond), len(alive), killTimeout, alive, j.Script)
+				violate("r1a", "job %d (shape: %s) was reported finished %v after its cancel, but %d of its processes were still alive 250ms after that report, %s (they were gone once the kill timeout of %v had passed): %v (script %q)", i, j.Shape, took.Round(time.Millisecond), len(alive), allIgnoreSIGINT(alive), killTimeout, alive, j.Script)
 			}
 		}
 		r.logf("job %d shape=%s finished %v after cancel, survivors=%d", i, j.Shape, took.Round(time.Millisecond), len(alive))
